@@ -754,6 +754,29 @@ where
     })
 }
 
+#[cfg(feature = "verif")]
+pub mod verif {
+    use super::{Entry, ShortTCoefficient};
+
+    /// The TCOEF table with its private payload type flattened to
+    /// `(is_escape, last, run, level)`.
+    pub fn tcoef_table() -> Vec<Entry<Option<(bool, bool, u8, u8)>>> {
+        super::TCOEF_TABLE
+            .iter()
+            .map(|e| match e {
+                Entry::Fork(l, r) => Entry::Fork(*l, *r),
+                Entry::End(None) => Entry::End(None),
+                Entry::End(Some(ShortTCoefficient::EscapeToLong)) => {
+                    Entry::End(Some((true, false, 0, 0)))
+                }
+                Entry::End(Some(ShortTCoefficient::Run { last, run, level })) => {
+                    Entry::End(Some((false, *last, *run, *level)))
+                }
+            })
+            .collect()
+    }
+}
+
 #[cfg(test)]
 mod tests {
     use crate::decoder::DecoderOption;
